@@ -143,6 +143,32 @@ def rollfin(tag, out):
             pass
     return 'never'
 
+def dfin(tag, out):
+    try:
+        thrower(tag + 'x', out)
+    except HostErr:
+        try:
+            raise HostErr('e' + tag + 'f')
+        finally:
+            z = 1
+    return 'never'
+
+def nfin(tag, out):
+    try:
+        try:
+            thrower(tag + 'f', out)
+        finally:
+            try:
+                raise KeyError('a' + tag)
+            except KeyError:
+                pass
+    finally:
+        try:
+            raise IndexError('b' + tag)
+        except IndexError:
+            pass
+    return 'never'
+
 def quiet(tag, out):
     try:
         raise KeyError('k' + tag)
@@ -176,6 +202,10 @@ def drive(shape, tag, out):
             v = rollback(tag, out)
         elif shape == 'rollfin':
             v = rollfin(tag, out)
+        elif shape == 'dfin':
+            v = dfin(tag, out)
+        elif shape == 'nfin':
+            v = nfin(tag, out)
         elif shape == 'swap':
             v = swapper(tag, out)
             restore_config()
@@ -207,8 +237,8 @@ def tmain(tid, acts, out):
     for j, shape in enumerate(acts):
         drive(shape, 't%d_%d' % (tid, j), out)
 '''
-SHAPES = ("rec", "super", "catch", "pass", "gen", "nest", "leaf", "swap", "hop", "fin", "fin2", "iter", "rollback", "rollfin")
-FUNCS = ("rec", "work", "catcher", "passer", "thrower", "leaf", "usegen", "gen", "nest", "swapper", "hop", "halter", "finner", "finner2", "quiet", "looper", "rollback", "rollfin")
+SHAPES = ("rec", "super", "catch", "pass", "gen", "nest", "leaf", "swap", "hop", "fin", "fin2", "iter", "rollback", "rollfin", "dfin", "nfin")
+FUNCS = ("rec", "work", "catcher", "passer", "thrower", "leaf", "usegen", "gen", "nest", "swapper", "hop", "halter", "finner", "finner2", "quiet", "looper", "rollback", "rollfin", "dfin", "nfin")
 LINES = ("rec_call", "super_call", "catch_call", "pass_call", "gen_next", "nest_a", "nest_b", "leaf_body", "swap_a", "hop_call", "halt_a", "fin_call", "fin_line", "fin2_call", "fin2_line", "loop_line", "rb_call", "rf_call")
 # recursion that passes through a frame of ANOTHER source file (a decorator, visitor or dispatcher of a library)
 RELAY_SRC = "def relay(fn, *args):\n    res = fn(*args)\n    return res\n"
@@ -536,6 +566,11 @@ def execute(s, ch):
                     if tp["kind"] == "lcap":
                         # a line capture completes at the next event of the function; only when that event ends the
                         # invocation does it carry the invocation's outcome
+                        if ev[pseq][2] == "return" and pseq == last_of_inv.get(ser) and w_.expression == "exception" \
+                                and real[0] == "exc" and real[1] not in (text or ""):
+                            viol.append(V("capture-is-not-the-invocations-outcome:%s" % shape, "invocation %s ended with "
+                                          "the exception %r (host log); the snapshot, completed by the event that ended "
+                                          "it, shows another exception: %r" % (tag, real[1], text)))
                         if ev[pseq][2] == "return" and pseq == last_of_inv.get(ser) and w_.expression == "return" \
                                 and real[0] == "exc":
                             viol.append(V("capture-is-not-the-invocations-outcome:%s" % shape, "invocation %s ended with "
